@@ -318,3 +318,25 @@ def r4(ctx):
                    f"{q} raises {cls}, which is outside the documented WebSocketException hierarchy", idx.loc(node))
     if n < 10:
         raise AnalysisError(f"only {n} raise statements found")
+
+
+@rule("R-C17-5", min_instances=4, title="the transport wrapper never returns empty data (an end of stream raises), on every timeout configuration -- otherwise read loops spin")
+def r5(ctx):
+    from .c03 import r5 as socket_recv_cases, r8 as nonblocking
+    socket_recv_cases(ctx)
+    # timeout 0 configuration explicitly: the empty read must still raise connection-closed
+    idx = ctx.index
+    stubs = dict(BASE_STUBS)
+    stubs["sock.gettimeout"] = lambda I, run, a, k, n: C(0)
+    I = Interp(idx, Config(stubs=stubs))
+    outs = ctx.count_paths(I.explore(lambda run: I.call(run, I.make_fn(run, "_socket:recv"), [Sym("sock", "obj"), C(10)], {}, None)))
+    bad = None
+    for o in outs:
+        if o.kind == "return":
+            f = o.run.facts.get(o.value.key()) if hasattr(o.value, "key") else None
+            if not (f and f.truth is True):
+                bad = bad or o
+    ctx.ob("_socket:recv:timeout=0:never-returns-empty", bad is None and bool(outs),
+           "with a non-blocking transport an empty read raises connection-closed" if bad is None else
+           "with a non-blocking transport (timeout 0) an empty read (end of stream) is returned to the caller: recv_line / recv_strict then loop forever on b''",
+           idx.loc(idx.func("_socket:recv").node), {"path": path_text(bad)} if bad else None)
